@@ -155,7 +155,7 @@ func newExec(w *World, fn *ssa.Function, key string, props []string, discover bo
 	x := &Exec{w: w, em: NewEmitter(), top: fn, trusted: map[string]bool{}, discover: discover,
 		loopMods: map[*ssa.BasicBlock]map[string]bool{}, strConst: map[string]string{}, sumFns: map[string]string{},
 		typeTags: map[string]int{}, ordinals: map[string]int{}, props: props, fnKey: key, sumInst: map[string]bool{},
-		usedContracts: map[string]bool{}, loopRoots: map[*ssa.BasicBlock]map[string][]ssa.Value{}, opaque: map[string]*opaqueInfo{}}
+		usedContracts: map[string]bool{}, loopRoots: map[*ssa.BasicBlock]map[string][]ssa.Value{}, opaque: map[string]*opaqueInfo{}, bindFail: map[string]bool{}}
 	return x
 }
 
@@ -194,6 +194,10 @@ func (w *World) verifyFunc(c *Contract) (res *FnResult) {
 	res.Obls = x.obls
 	for t := range x.trusted {
 		res.Trusted = append(res.Trusted, t)
+	}
+	for b := range x.bindFail {
+		res.Trusted = append(res.Trusted, "BINDING-FAILURE: "+b)
+		fmt.Println("BINDING-FAILURE:", b)
 	}
 	sort.Strings(res.Trusted)
 	for u := range x.usedContracts {
@@ -281,11 +285,24 @@ func (fr *Frame) allocSlices(v *SVal, a0 string) {
 	}
 }
 
-func (fr *Frame) evalInvariant(inv *Clause, header *ssa.BasicBlock, heap *HeapState) string {
+func (fr *Frame) evalInvariant(inv *Clause, header *ssa.BasicBlock, heap *HeapState) (res string) {
 	env := fr.newEnv()
 	env.heap = heap
 	env.header = header
 	env.contract = fr.contract
+	// A loop invariant that no longer binds (a local it names is gone) is dropped rather than
+	// aborting the run: the obligations that needed it then fail and are reported, with the
+	// binding failure recorded in the trusted-base/notes of the evidence.
+	defer func() {
+		if r := recover(); r != nil {
+			sf, ok := r.(specFail)
+			if !ok {
+				panic(r)
+			}
+			fr.x.bindFail["loop invariant of "+fr.x.fnKey+" does not bind: "+sf.msg+" ("+inv.Src+")"] = true
+			res = "true"
+		}
+	}()
 	return fr.evalBool(inv.Expr, env)
 }
 
